@@ -104,7 +104,10 @@ def gen_case(rng):
         elif k == "nlri" and "nlri" not in used and "totallen" not in used:
             used.add("nlri")
             faults.append(("nlri",))
-    return {"ibgp": ibgp, "revised": revised, "present": present, "faults": faults, "peer_as": peer_as}
+    # which flag is wrong in a flags fault: the Optional bit flipped, or the Partial bit set on an attribute that is
+    # well-known or optional non-transitive (RFC 4271 4.3: it must be 0 there)
+    flagbits = {x[1]: rng.choice([0x80, 0x20]) for x in faults if x[0] == "flags"}
+    return {"ibgp": ibgp, "revised": revised, "present": present, "faults": faults, "peer_as": peer_as, "flagbits": flagbits}
 
 
 def build(c):
@@ -121,7 +124,7 @@ def build(c):
             continue
         flags = FLAGS[t]
         if t in f.get("flags", []):
-            flags ^= 0x80      # optional bit flipped
+            flags ^= c.get("flagbits", {}).get(t, 0x80)
         val = bad_value(t) if t in f.get("mal", []) else good_value(t, pa, ib)
         attrs.append(attr(flags, t, val))
         if t in f.get("dup", []):
